@@ -817,6 +817,10 @@ impl<'a> SortedStaleNodes<'a> {
             .rev()
             .flat_map(move |mut stale_nodes| {
                 stale_nodes.shuffle(&mut rng);
+                #[cfg(feature = "verif")]
+                crate::verif::reorder_equal_staleness(&mut stale_nodes, |stale_node| {
+                    stale_node.chitchat_id
+                });
                 stale_nodes.into_iter()
             })
     }
